@@ -24,7 +24,7 @@ BUDGET = {'quick': dict(runs=3000, wall_s=55, chunk=25), 'thorough': dict(runs=6
 COMPONENTS = {'real': ['enspara.cluster.kmedoids (_kmedoids_pam_update, proposer, input tree)', 'enspara.cluster.hybrid',
                        'enspara.mpi.ops (randind, distribute_frame, striped_array_mean)', 'compiled libdist kernels'],
               'stub': ['MPI library (simmpi)', 'heap allocator (simalloc)']}
-ASSUMPTIONS = ['cost comparisons allow 4*n ulp (the library and the model may sum in different orders; under MPI the '
+ASSUMPTIONS = ['for md.Trajectory data the metric model is mdtraj.rmsd itself on the whole data set; two evaluations of one RMSD may differ by sqrt(d^2 + 4e-6) - d (batch-dependent last bits of the float32 routine; a frame against itself gives 0..4e-4), reported values are compared with that allowance, near-ties inside it make a scenario not tie-free, and because mdtraj.rmsd moves the frames it is given to their centroid in place, centres and the caller\'s data are compared up to that translation', 'cost comparisons allow 4*n ulp (the library and the model may sum in different orders; under MPI the '
                'reduction order is legitimately free)', 'explicit proposals are members of the cluster being updated',
                'zero sweeps are requested through k-hybrid, which supports it, not through kmedoids(n_iters=0)']
 REACH_EXPECTED = ['rmsd_trajectory_data', 'seed_via_set_params', 'estimator_warm_start_sweep', 'estimator_reproducibility', 'per_rank_generators', 'proposal_accepted', 'proposal_rejected', 'mpi_run', 'random_sweep', 'hybrid_cost_sequence',
